@@ -315,7 +315,11 @@ class Planner:
                 if key not in script:
                     # nested parse: usually the same module, a colliding text
                     nmid = mid if fr.random() < 0.7 else fr.choice(sorted(self.infos))
-                    sub = self.gen_parse(nmid, kinds, depth + 1)
+                    if nmid == mid and fr.random() < 0.35:
+                        # the callback passes on what it was handed: Sub.parse(_text, _pos)
+                        sub = self.gen_nested_on_outer_text(op, p)
+                    else:
+                        sub = self.gen_parse(nmid, kinds, depth + 1)
                     script[key] = {'nest': sub}
                     steps += sub.get('_steps', 0)
             if 'gc' in kinds and fr.random() < 0.06:
@@ -337,6 +341,24 @@ class Planner:
             op['budget'] = U.REF_BUDGET
         op['_steps'] = steps
         return op
+
+    def gen_nested_on_outer_text(self, op, p):
+        """A nested call on the very text object of the enclosing call, from the callback's position."""
+        fr = self.fr
+        m = self.infos[op['mod']]
+        n = text_len(op)
+        new = {'op': 'parse', 'mod': op['mod'], 'entry': 'parse', 'text': op['text'], 'textobj': 'outer',
+               'pos': p if (isinstance(p, int) and 0 <= p <= n and fr.random() < 0.7) else 0, 'full': fr.random() < 0.4}
+        if m.own and fr.random() < 0.7:
+            it = fr.choice(m.own)
+            new['entry'] = ('class:' if it['k'] == 'class' else 'rule:') + it['name']
+        rec = self.ref(new)
+        if rec['out'].get('err') == 'nontermination':
+            new['budget'] = U.REF_BUDGET
+        else:
+            new['budget'] = min(U.SIM_BUDGET_CAP, 200 * rec['steps'] + 100_000)
+        new['_steps'] = rec['steps']
+        return new
 
     def gen_sibling(self, op):
         """The same text again, differing in ONE argument: start offset, fullparse flag or entry point
@@ -535,6 +557,16 @@ class Planner:
                 mid = hot if (hot in cands and wr.random() < 0.65) else wr.choice(cands)
                 ops.append(self.gen_parse(mid, kinds))
             clients.append(ops)
+        if n_clients >= 2 and wr.random() < 0.3:
+            # "the same request, twice, at the same time": the other clients start with the very operation
+            # the first client starts with -- the call that is let into a window then runs through the
+            # same call sites and lazily initialised objects as the pre-empted one
+            import copy
+            first = next((op for op in clients[0] if op['op'] == 'parse'), None)
+            if first is not None:
+                for ci in range(1, n_clients):
+                    if wr.random() < 0.7:
+                        clients[ci].insert(0, copy.deepcopy(first))
         probes = []
         for mid in sorted(self.infos):
             m = self.infos[mid]
@@ -556,6 +588,11 @@ class Planner:
                 pol = {'kind': 'sequential'}
             elif x < 0.16:
                 pol = {'kind': 'op-interleave'}
+            elif x < 0.22:
+                # pre-emption INSIDE source lines that touch shared state (instruction granularity)
+                # (cap 1: only the first visit of each point counts -- lazy initialisation runs once)
+                cap = sr.choice([1, 1, 3])
+                pol = {'kind': 'instr-shot', 'j': sr.randint(1, 25 if cap == 1 else 60), 'cap': cap, 'instr': True}
             elif x < 0.44:
                 pol = {'kind': 'bernoulli', 'p': sr.choice([1e-3, 1e-2, 1e-2, 1e-1])}
             elif x < 0.56:
@@ -599,6 +636,10 @@ def make_policy(pol, schedule=None):
         return mon.FirstVisit(r, pol['q'])
     if k == 'one-shot':
         return mon.OneShot(r, pol['j'])
+    if k == 'instr-shot':
+        p = mon.InstrShot(r, pol['j'])
+        p.cap = pol.get('cap', 3)
+        return p
     raise ValueError(k)
 
 
@@ -677,10 +718,13 @@ def simulate(plan, schedule=None, wall_timeout=120.0, attach=None):
         env.policy = policy
         if attach is not None:
             attach(env)
+        instr = bool(plan['policy'].get('instr'))
         for h in env.handles.values():
             if h.ok:
                 for c in U.generated_codes(h.module):
                     sim.hot |= mon.hot_lines(c, vars(h.module))
+                    if instr:
+                        sim.hot_strict |= mon.hot_lines(c, vars(h.module), strict=True)
         records = [[] for _ in plan['clients']]
         for ci, ops in enumerate(plan['clients']):
             sim.spawn(lambda t, ops=ops, ci=ci: _client_body(env, t, ops, records[ci]))
@@ -692,9 +736,15 @@ def simulate(plan, schedule=None, wall_timeout=120.0, attach=None):
                 m = _sys.modules[mname]
                 for c in mon.codes_of_module(m):
                     sim.hot |= mon.hot_lines(c, vars(m))
+                    if instr:
+                        sim.hot_strict |= mon.hot_lines(c, vars(m), strict=True)
+        env.instr = instr
+        if env.instr:
+            sim.enable_instr()
         try:
             sim.run(wall_timeout)
         finally:
+            sim.disable_instr()
             if lib:
                 mon.unwatch(mon.library_codes())
         env.policy = None
@@ -715,6 +765,11 @@ def simulate(plan, schedule=None, wall_timeout=120.0, attach=None):
             env.count('preempt', result['switches'])
         if sim.hot_hits:
             env.count('shared_state_lines_visited_under_targeted_policy', sim.hot_hits)
+        if sim.ipoint_hits:
+            env.count('instruction_points_inside_shared_state_lines_visited', sim.ipoint_hits)
+        n_instr = sum(1 for s in sim.switches if len(s) > 3)
+        if n_instr:
+            env.count('preempt_inside_a_source_line', n_instr)
         result['env'] = env
         result['sig'] = rngm.digest([list(x) for x in sim.sig])
         from simkit.fp import norm_text
